@@ -29,7 +29,7 @@ KINDS = {
     "channel": r"\.\s*(try_send|try_recv|send|recv)\s*\(|_ch\s*\.\s*len\s*\(\)|\bch\s*\.\s*len\s*\(\)",
     "panic": r"\bpanic!|\bunreachable!|\.expect\(|\.unwrap\(\)|\bassert!|\bassert_eq!|\bdebug_assert",
     "unsafe": r"\bunsafe\b",
-    "time_write": r"\bset_last_accessed\s*\(|\bset_last_modified\s*\(|\bset_valid_after\s*\(|\bset_instant\s*\(",
+    "time_write": r"\bset_last_accessed\s*\(|\bset_last_modified\s*\(|\bset_valid_after\s*\(|\bset_instant\s*\(|\badvance_to\s*\(",
     "flag_write": r"\bset_dirty\s*\(|\bset_admitted\s*\(|\bset_policy_weight\s*\(|\bunset_q_nodes\s*\(|\bset_access_order_q_node\s*\(|\bset_write_order_q_node\s*\(|\btake_access_order_q_node\s*\(|\btake_write_order_q_node\s*\(",
     "counter": r"\bentry_count\s*[-+]=|\bentry_count\s*=[^=]|\bweighted_size\s*=[^=]|saturating_(add|sub)(_to|_from)?(_total_weight)?\s*\(|\.store\s*\(",
     "lock": r"\.lock\(\)|\.read\(\)|\.write\(\)|compare_exchange\s*\(",
